@@ -1,5 +1,6 @@
 import BU.Properties.C09
 import BU.Properties.C09_Gen
+import BU.Properties.C09_GenInit
 import BU.Properties.C09_GenPub
 #print axioms C09.wif_prefixes
 #print axioms C09.wif_roundtrip
@@ -19,6 +20,9 @@ import BU.Properties.C09_GenPub
 #print axioms C09Gen.gen_to_wif
 #print axioms C09Gen.gen_wif_roundtrip
 #print axioms C09Gen.gen_wif_rejects
+#print axioms C09GenInit.gen_privkey_from_bytes
+#print axioms C09GenInit.gen_privkey_init
+#print axioms C09GenInit.gen_explicit_secret
 #print axioms C09GenPub.gen_to_hex
 #print axioms C09GenPub.gen_to_x_only_hex
 #print axioms C09GenPub.gen_is_y_even
